@@ -163,3 +163,194 @@ Qed.
 Theorem rounds_to_idempotent prec emin x r r' :
   rounds_to prec emin x r -> rounds_to prec emin r r' -> (r' == r)%Q.
 Proof. intros [F _] H. exact (rounds_to_exact _ _ _ _ H F). Qed.
+
+(* ------------------------------------------------------------------ the functions on fl *)
+
+Lemma flQ_T n m e : (flQ (FFin n m e) == inject_Z (sgn n m) * T e)%Q.
+Proof. reflexivity. Qed.
+
+Definition signed (neg : bool) (v : Q) : Q := if neg then (- v)%Q else v.
+
+Lemma flQ_mkfl_Z neg q e : 0 <= q -> (flQ (mkfl neg q e) == signed neg (inject_Z q * T e))%Q.
+Proof.
+  intros Hq. destruct q as [|p|p]; [| |lia].
+  - unfold mkfl, flQ, signed. cbn [fl_m fl_e]. change (inject_Z 0) with 0%Q. destruct neg; ring.
+  - rewrite flQ_mkfl. unfold signed, sgn, T. destruct neg; [|reflexivity].
+    change (Z.neg p) with (- Z.pos p). rewrite inject_Z_opp. ring.
+Qed.
+
+Lemma flQ_FFin_signed n m e : (flQ (FFin n m e) == signed n (inject_Z (Zpos m) * T e))%Q.
+Proof.
+  rewrite flQ_T. unfold signed, sgn. destruct n; [|reflexivity].
+  change (Z.neg m) with (- Z.pos m). rewrite inject_Z_opp. ring.
+Qed.
+
+Lemma rounds_to_signed prec emin neg x r :
+  rounds_to prec emin x r -> rounds_to prec emin (signed neg x) (signed neg r).
+Proof. destruct neg; [apply rounds_to_opp|auto]. Qed.
+
+Lemma Qabs_signed neg v : (0 <= v)%Q -> (Qabs (signed neg v) == v)%Q.
+Proof. intros H. destruct neg; cbn [signed]; [rewrite Qabs_opp|]; apply Qabs_pos; exact H. Qed.
+
+Lemma round_pos_eq f neg m e st :
+  round_pos f neg m e st =
+    let p := round_mag (f_prec f) (f_emin f) m e st in
+    match f_maxexp f with
+    | Some mx => if mx <? bitlen (fst p) + snd p then None else Some (mkfl neg (fst p) (snd p))
+    | None => Some (mkfl neg (fst p) (snd p))
+    end.
+Proof. unfold round_pos. destruct (round_mag (f_prec f) (f_emin f) m e st). reflexivity. Qed.
+
+Lemma round_mag_fst_nonneg prec emin m e st : 0 < prec -> 0 <= fst (round_mag prec emin m e st).
+Proof.
+  intros Hp. pose proof (round_mag_shape prec emin m e st Hp) as H. cbn zeta in H.
+  destruct (round_mag prec emin m e st). cbn [fst]. lia.
+Qed.
+
+Lemma round_pos_value f neg m e st r : 0 < f_prec f -> round_pos f neg m e st = Some r ->
+  (flQ r == signed neg (pairQ (round_mag (f_prec f) (f_emin f) m e st)))%Q.
+Proof.
+  intros Hp H. rewrite round_pos_eq in H. cbn zeta in H.
+  pose proof (round_mag_fst_nonneg (f_prec f) (f_emin f) m e st Hp) as Hq.
+  unfold pairQ. destruct (f_maxexp f) as [mx|].
+  - destruct (mx <? _); [discriminate|]. inversion H. apply flQ_mkfl_Z. exact Hq.
+  - inversion H. apply flQ_mkfl_Z. exact Hq.
+Qed.
+
+(* ---- round_fl: a float rounded to a format *)
+Theorem round_fl_rounds f x r : 0 < f_prec f -> round_fl f x = Some r ->
+  rounds_to (f_prec f) (f_emin f) (flQ x) (flQ r).
+Proof.
+  intros Hp H. destruct x as [n|n m e]; cbn [round_fl] in H.
+  - inversion H. apply (rounds_to_ext _ _ 0%Q _ 0%Q); [unfold flQ; cbn; ring|unfold flQ; cbn; ring|].
+    apply rounds_to_0. exact Hp.
+  - pose proof (round_pos_value f n m e false r Hp H) as V.
+    apply (rounds_to_ext _ _ (signed n (inject_Z (Zpos m) * T e)) _
+             (signed n (pairQ (round_mag (f_prec f) (f_emin f) m e false)))).
+    + symmetry. apply flQ_FFin_signed.
+    + symmetry. exact V.
+    + apply rounds_to_signed. apply round_mag_fl_rounds. exact Hp.
+Qed.
+
+(* ---- round_Z: an integer rounded to a format *)
+Theorem round_Z_rounds f z r : 0 < f_prec f -> round_Z f z = Some r ->
+  rounds_to (f_prec f) (f_emin f) (inject_Z z) (flQ r).
+Proof.
+  intros Hp H. destruct z as [|p|p]; cbn [round_Z] in H.
+  - inversion H. apply (rounds_to_ext _ _ 0%Q _ 0%Q); [reflexivity|unfold flQ; cbn; ring|].
+    apply rounds_to_0. exact Hp.
+  - pose proof (round_pos_value f false p 0 false r Hp H) as V.
+    apply (rounds_to_ext _ _ (inject_Z (Zpos p) * T 0)%Q _ (pairQ (round_mag (f_prec f) (f_emin f) p 0 false))).
+    + rewrite T_0. ring.
+    + symmetry. exact V.
+    + apply round_mag_fl_rounds. exact Hp.
+  - pose proof (round_pos_value f true p 0 false r Hp H) as V.
+    apply (rounds_to_ext _ _ (- (inject_Z (Zpos p) * T 0))%Q _ (- pairQ (round_mag (f_prec f) (f_emin f) p 0 false))%Q).
+    + rewrite T_0. change (Z.neg p) with (- Z.pos p). rewrite inject_Z_opp. ring.
+    + symmetry. exact V.
+    + apply rounds_to_opp. apply round_mag_fl_rounds. exact Hp.
+Qed.
+
+(* ---- round_rat: a rational n / d rounded to a format, once *)
+Lemma Qmake_neg p d : (Z.neg p # d == - (Z.pos p # d))%Q.
+Proof. unfold Qeq, Qopp. cbn. reflexivity. Qed.
+
+Theorem round_rat_rounds f n d r : 0 < f_prec f -> round_rat f n d = Some r ->
+  rounds_to (f_prec f) (f_emin f) (n # d) (flQ r).
+Proof.
+  intros Hp H. destruct n as [|p|p]; cbn [round_rat] in H.
+  - inversion H. apply (rounds_to_ext _ _ 0%Q _ 0%Q); [reflexivity|unfold flQ; cbn; ring|].
+    apply rounds_to_0. exact Hp.
+  - pose proof (round_mag_rat_rounds (f_prec f) (f_emin f) p d Hp) as M.
+    destruct (quo_bits (f_prec f) p d) as [[q e] s].
+    pose proof (round_pos_value f false q e s r Hp H) as V.
+    refine (rounds_to_ext _ _ _ _ _ _ (Qeq_refl _) _ M). symmetry. exact V.
+  - pose proof (round_mag_rat_rounds (f_prec f) (f_emin f) p d Hp) as M.
+    destruct (quo_bits (f_prec f) p d) as [[q e] s].
+    pose proof (round_pos_value f true q e s r Hp H) as V.
+    apply rounds_to_opp in M.
+    refine (rounds_to_ext _ _ _ _ _ _ _ _ M); [symmetry; apply Qmake_neg|symmetry; exact V].
+Qed.
+
+(* ---- overflow to an error: exactly from 2^mx minus half a unit of the last place on *)
+Definition overflow_threshold (f : fmt) (mx : Z) : Q := (T mx - T (mx - f_prec f - 1))%Q.
+
+Lemma threshold_pos f mx : 0 < f_prec f -> (0 < overflow_threshold f mx)%Q.
+Proof. intros Hp. unfold overflow_threshold. pose proof (T_lt (mx - f_prec f - 1) mx ltac:(lia)). lra. Qed.
+
+Definition fmt_ok (f : fmt) (mx : Z) : Prop :=
+  0 < f_prec f /\ f_maxexp f = Some mx /\
+  match f_emin f with Some em => em + f_prec f <= mx | None => True end.
+
+Lemma round_pos_overflow f mx neg a d e : fmt_ok f mx -> 0 < a / Zpos d ->
+  negb (a mod Zpos d =? 0) = false \/ f_prec f < bitlen (a / Zpos d) ->
+  (round_pos f neg (Z.to_pos (a / Zpos d)) e (negb (a mod Zpos d =? 0)) = None <->
+   (overflow_threshold f mx <= (a # d) * T e)%Q).
+Proof.
+  intros [Hp [Hmx Hem]] Hm Hs. rewrite round_pos_eq. cbn zeta. rewrite Hmx.
+  rewrite <- (round_mag_overflow (f_prec f) (f_emin f) Hp a d e Hm Hs mx Hem).
+  destruct (Z.ltb_spec mx (bitlen (fst (round_mag (f_prec f) (f_emin f) (Z.to_pos (a / Z.pos d)) e
+                                     (negb (a mod Z.pos d =? 0)))) +
+                           snd (round_mag (f_prec f) (f_emin f) (Z.to_pos (a / Z.pos d)) e
+                                     (negb (a mod Z.pos d =? 0))))) as [H|H].
+  - split; [intros _; exact H|reflexivity].
+  - split; [discriminate|lia].
+Qed.
+
+Theorem round_fl_overflow f mx x : fmt_ok f mx ->
+  (round_fl f x = None <-> (overflow_threshold f mx <= Qabs (flQ x))%Q).
+Proof.
+  intros Hok. pose proof Hok as [Hp _]. pose proof (threshold_pos f mx Hp) as Ht.
+  destruct x as [n|n m e]; cbn [round_fl].
+  - split; [discriminate|]. intros H. exfalso.
+    assert (E : (flQ (FZero n) == 0)%Q) by (unfold flQ; cbn; ring).
+    rewrite E in H. change (Qabs 0) with 0%Q in H. lra.
+  - pose proof (round_pos_overflow f mx n (Zpos m) 1 e Hok) as H.
+    rewrite Z.div_1_r, Z.mod_1_r in H. cbn [Z.eqb negb Z.to_pos] in H.
+    rewrite (H ltac:(lia) (or_introl eq_refl)).
+    rewrite flQ_FFin_signed, Qabs_signed.
+    + reflexivity.
+    + pose proof (T_pos e). assert (0 < inject_Z (Zpos m))%Q by (apply (inject_Z_lt 0); lia). nra.
+Qed.
+
+Theorem round_rat_overflow f mx n d : fmt_ok f mx ->
+  (round_rat f n d = None <-> (overflow_threshold f mx <= Qabs (n # d))%Q).
+Proof.
+  intros Hok. pose proof Hok as [Hp _]. pose proof (threshold_pos f mx Hp) as Ht.
+  assert (Hmag : forall neg p,
+    (let '(q, e, s) := quo_bits (f_prec f) p d in round_pos f neg q e s) = None <->
+    (overflow_threshold f mx <= Zpos p # d)%Q).
+  { intros neg p. destruct (quo_bits_spec (f_prec f) p d Hp) as [E [Hq Hk]]. cbn zeta in E, Hq, Hk.
+    set (k := Z.max 0 (f_prec f + 2 + bitlen (Zpos d) - bitlen (Zpos p))) in *.
+    set (a := Zpos p * 2 ^ k) in *. rewrite E.
+    assert (Hm : 0 < a / Zpos d).
+    { assert (0 < 2 ^ (f_prec f + 1)) by (apply Z.pow_pos_nonneg; lia). lia. }
+    assert (Hb : f_prec f < bitlen (a / Zpos d)).
+    { apply bitlen_gt; [lia|]. apply Z.le_trans with (2 := Hq). apply Z.pow_le_mono_r; lia. }
+    rewrite (round_pos_overflow f mx neg a d (- k) Hok Hm (or_intror Hb)).
+    assert (EV : ((a # d) * T (- k) == Zpos p # d)%Q).
+    { assert (Hd : (0 < inject_Z (Zpos d))%Q) by (apply (inject_Z_lt 0); lia).
+      apply (Qmult_inj_r _ _ (inject_Z (Zpos d) * T k)); [pose proof (T_pos k); intros Hc; nra|].
+      setoid_replace ((a # d) * T (- k) * (inject_Z (Z.pos d) * T k))%Q
+        with (((a # d) * inject_Z (Z.pos d)) * (T (- k) * T k))%Q by ring.
+      rewrite <- T_add, Qmake_mult. replace (- k + k) with 0 by lia. rewrite T_0.
+      setoid_replace ((Z.pos p # d) * (inject_Z (Z.pos d) * T k))%Q
+        with (((Z.pos p # d) * inject_Z (Z.pos d)) * T k)%Q by ring.
+      rewrite Qmake_mult. unfold a. rewrite inject_Z_mult, (T_Z k) by lia. ring. }
+    rewrite EV. reflexivity. }
+  destruct n as [|p|p]; cbn [round_rat].
+  - split; [discriminate|]. intros H. exfalso. change (Qabs (0 # d)) with (0 # d)%Q in H.
+    assert (E : (0 # d == 0)%Q) by reflexivity. rewrite E in H. lra.
+  - rewrite (Hmag false p). rewrite Qabs_pos; [reflexivity|]. unfold Qle. cbn. lia.
+  - rewrite (Hmag true p). rewrite Qmake_neg, Qabs_opp, Qabs_pos; [reflexivity|]. unfold Qle. cbn. lia.
+Qed.
+
+(* the formats of the model *)
+Lemma fmt64_ok : fmt_ok fmt64 1024.
+Proof. split; [reflexivity|]. split; [reflexivity|]. cbn. lia. Qed.
+Lemma fmt32_ok : fmt_ok fmt32 128.
+Proof. split; [reflexivity|]. split; [reflexivity|]. cbn. lia. Qed.
+
+(* without a maximal exponent rounding never fails *)
+Lemma round_pos_total f neg m e st : f_maxexp f = None -> round_pos f neg m e st <> None.
+Proof. intros H. rewrite round_pos_eq. cbn zeta. rewrite H. discriminate. Qed.
